@@ -108,15 +108,9 @@ func cur() (*Sched, *thread) {
 	return t.s, t
 }
 
-func goid() uint64 {
-	var buf [64]byte
-	n := runtime.Stack(buf[:], false)
-	// "goroutine 123 ["
-	f := strings.Fields(string(buf[:n]))
-	var id uint64
-	fmt.Sscanf(f[1], "%d", &id)
-	return id
-}
+// goid: the runtime overlay (rt/mkrt.py) adds runtime.VerifGoid(); parsing runtime.Stack output instead takes a
+// global runtime lock and serialises all explorer workers.
+func goid() uint64 { return runtime.VerifGoid() }
 
 // Active reports whether a controlled execution is in progress on this goroutine.
 func Active() bool {
